@@ -99,6 +99,14 @@ CHECKS = {
              "4 (thorough) and after every step reads CKA_LOCAL, CKA_KEY_GEN_MECHANISM, CKA_ALWAYS_SENSITIVE and CKA_NEVER_EXTRACTABLE of every live key "
              "against the truth model.",
         note="Only the listed clauses are judged (stricter library behaviour is fine); SO-session histories are limited to the TRUSTED clause."),
+    "C12": dict(
+        category="model_checking", design_ref="DESIGN.md 3/C12",
+        technique="explicit-state BFS over Init/single-part/Update/Final call sequences with the NULL-query / announced-size protocol on the real library, lock-step with an operation automaton and a differential completion oracle evaluated in every state",
+        text="For 20 mechanisms (one per size-logic branch) all sequences of Init, up to 3 (quick) / 4 (thorough) Update or single-part calls and Final are executed, "
+             "each call first as a length query and then with 0, L-1, L or L+7 announced bytes; every state is probed for CKR_OPERATION_ACTIVE / "
+             "CKR_OPERATION_NOT_INITIALIZED behaviour and the pending operation is completed canonically (directly and after an unrelated operation in a second "
+             "session) and compared with a clean single-part run; reported lengths are bounded per the statement, canaries guard announced and returned lengths.",
+        note="The 'unchanged' reference is the library's own clean run (independent correctness is C10); verify operations use exact shapes only."),
 }
 
 NOT_YET = "check under construction in this session; not claimed yet (DESIGN.md Appendix D gives the build order)"
@@ -127,7 +135,7 @@ def main():
         "setup_cmd": "python3 tools/build_sut.py ossl-asan ossl-plain ref",
         "hooks": {"guard": "SOFTHSM_VERIF", "enable": "tools/build_sut.py passes -DSOFTHSM_VERIF to every variant it compiles from /repo's working tree",
                   "baseline_off_cmd": "cmake --build /repo/_build && ctest --test-dir /repo/_build -j8 --timeout 900",
-                  "source_commits": [], "fix_commits": ["6bd3dce", "e87af21", "bea9994", "588c9b7", "ceb5015", "8d94e13", "fd7cd14", "084c459"], "add_only": True},
+                  "source_commits": [], "fix_commits": ["6bd3dce", "e87af21", "bea9994", "588c9b7", "ceb5015", "2adb934", "9affe31", "8d94e13", "fd7cd14", "084c459"], "add_only": True},
         "engines": [
             {"name": "p11sh", "path": "engine/p11sh", "serves_properties": sorted(CHECKS), "kind_free_text": "PKCS#11 shell linked statically against the SUT; SNAP/BACK process snapshots; guard pages + canaries around every buffer"},
             {"name": "p11mc", "path": "py/p11mc", "serves_properties": sorted(CHECKS), "kind_free_text": "explicit-state explorer (level-synchronous BFS with replay-to-state, unmerged DFS), reference models, evidence/findings glue"},
